@@ -54,7 +54,7 @@ def parseScalarTypeDefinition (n : Nat) (description : Bytes) : Prog Definition 
 /-- `parseImplementsInterfaces` -/
 def parseImplementsInterfaces (n : Nat) : Prog (List Name) := do
   let t ← peek
-  if t.value = kwImplements then
+  if t.kind = .name ∧ t.value = kwImplements then
     let _ ← next
     let _ ← skip .amp
     let first ← parseName
@@ -236,15 +236,16 @@ def parseObjectTypeExtension (n : Nat) : Prog Definition := do
   pure { kind := .object, desc := [], name := name, dirs := dirs, interfaces := ifs, fields := fields,
          types := [], enumValues := [], pos := pos, builtIn := false }
 
-/-- `parseInterfaceTypeExtension` (no `implements`, as in the Go code) -/
+/-- `parseInterfaceTypeExtension` -/
 def parseInterfaceTypeExtension (n : Nat) : Prog Definition := do
   let _ ← expectKeyword kwInterface
   let pos ← peekPos
   let name ← parseName
+  let ifs ← parseImplementsInterfaces n
   let dirs ← parseDirectives n true
   let fields ← parseFieldsDefinition n
-  if dirs.length = 0 ∧ fields.length = 0 then unexpectedError
-  pure { kind := .interface, desc := [], name := name, dirs := dirs, interfaces := [], fields := fields,
+  if ifs.length = 0 ∧ dirs.length = 0 ∧ fields.length = 0 then unexpectedError
+  pure { kind := .interface, desc := [], name := name, dirs := dirs, interfaces := ifs, fields := fields,
          types := [], enumValues := [], pos := pos, builtIn := false }
 
 /-- `parseUnionTypeExtension` -/
@@ -269,12 +270,12 @@ def parseEnumTypeExtension (n : Nat) : Prog Definition := do
   pure { kind := .enum, desc := [], name := name, dirs := dirs, interfaces := [], fields := [],
          types := [], enumValues := evs, pos := pos, builtIn := false }
 
-/-- `parseInputObjectTypeExtension` (directives parsed with `isConst = false`, as in the Go code) -/
+/-- `parseInputObjectTypeExtension` -/
 def parseInputObjectTypeExtension (n : Nat) : Prog Definition := do
   let _ ← expectKeyword kwInput
   let pos ← peekPos
   let name ← parseName
-  let dirs ← parseDirectives n false
+  let dirs ← parseDirectives n true
   let fields ← parseInputFieldsDefinition n
   if dirs.length = 0 ∧ fields.length = 0 then unexpectedError
   pure { kind := .inputObject, desc := [], name := name, dirs := dirs, interfaces := [], fields := fields,
@@ -348,16 +349,21 @@ def parseDirectiveDefinition (n : Nat) (description : Bytes) : Prog DirectiveDef
   pure { desc := description, name := name, args := args, locations := locs, repeatable := rep, pos := pos }
 
 /-- `if p.peek().Kind == BlockString || p.peek().Kind == String { description = p.parseDescription() }` -/
-def parseOptionalDescription : Prog Bytes := do
+def parseOptionalDescription : Prog (Bytes × Bool) := do
   let a ← peek
-  if a.kind = .blockString then parseDescription
+  if a.kind = .blockString then
+    let d ← parseDescription
+    pure (d, true)
   else
     let b ← peek
-    if b.kind = .string then parseDescription else pure []
+    if b.kind = .string then
+      let d ← parseDescription
+      pure (d, true)
+    else pure ([], false)
 
-/-- `if description.text != "" { p.unexpectedToken(p.prev) }` (before an extension) -/
-def rejectDescription (description : Bytes) : Prog Unit := do
-  if description ≠ [] then
+/-- `if hasDescription { p.unexpectedToken(p.prev) }` (before an extension) -/
+def rejectDescription (hasDescription : Bool) : Prog Unit := do
+  if hasDescription then
     let pv ← getPrev
     unexpectedToken pv
   else pure ()
@@ -370,7 +376,7 @@ def schemaDocLoop (m : Nat) : Nat → SchemaDoc → Prog SchemaDoc
     if t.kind ≠ .eof then
       if ← hasErr then pure default
       else
-        let description ← parseOptionalDescription
+        let (description, hasDescription) ← parseOptionalDescription
         let c ← peek
         if c.kind ≠ .name then
           unexpectedError
@@ -388,7 +394,7 @@ def schemaDocLoop (m : Nat) : Nat → SchemaDoc → Prog SchemaDoc
             let dd ← parseDirectiveDefinition m description
             schemaDocLoop m n { doc with directives := doc.directives ++ [dd] }
           else if d.value = kwExtend then
-            rejectDescription description
+            rejectDescription hasDescription
             let doc' ← parseTypeSystemExtension m doc
             schemaDocLoop m n doc'
           else
